@@ -50,11 +50,12 @@ Record sub := mkSub {
 Record cfg := mkCfg {
   c_maxd : Z;               (* max_subscription_duration of the manager, ticks *)
   c_maxerr : Z;             (* SubscriptionBase.MAX_NOTIFY_ERRORS *)
-  c_grace : Z               (* housekeeping removes an unsubscribed entry when now > unsubscribed_at + grace *)
+  c_grace : Z;              (* housekeeping removes an unsubscribed entry when now > unsubscribed_at + grace *)
+  c_dialect : bool          (* the manager rejects a foreign Filter/@Dialect (sync managers do, async ones do not) *)
 }.
 
 Definition default_cfg : cfg :=
-  mkCfg DEFAULT_MAX_SUBSCR_DURATION_TICKS MAX_NOTIFY_ERRORS HOUSEKEEPING_GRACE_TICKS.
+  mkCfg DEFAULT_MAX_SUBSCR_DURATION_TICKS MAX_NOTIFY_ERRORS HOUSEKEEPING_GRACE_TICKS true.
 
 (* SoapClientPool: netloc -> (user subscriptions, "client has a connection error and is closed") *)
 Definition pool := list (Z * (list Z * bool)).
@@ -263,8 +264,8 @@ Definition lookup (st : state) (i : ident) : option sub :=
             end
   end.
 
-Definition accepts (q : subreq) : bool :=
-  q_schema_ok q && q_dialect_ok q && negb (is_none (q_filter q)).
+Definition accepts (c : cfg) (q : subreq) : bool :=
+  q_schema_ok q && (q_dialect_ok q || negb (c_dialect c)) && negb (is_none (q_filter q)).
 
 Definition new_sub (c : cfg) (st : state) (q : subreq) : sub :=
   mkSub (st_next st) (match q_filter q with Some f => f | None => [] end) (st_now st)
@@ -273,7 +274,7 @@ Definition new_sub (c : cfg) (st : state) (q : subreq) : sub :=
 Definition step (c : cfg) (st : state) (o : op) : state * (resp * list msg) :=
   match o with
   | Subscribe q =>
-      if accepts q then
+      if accepts c q then
         let s := new_sub c st q in
         (mkState (st_now st) (st_next st + 1) (st_table st ++ [s])%list (st_pool st),
          (RSub (s_id s) (rem_cs s (st_now st)), []))
